@@ -17,6 +17,10 @@ structure Fanout where
 
 namespace Fanout
 
+/-- `FanoutCache.__init__`: `shards` caches, each with `size_limit / shards` (fanout.py:37-52) -/
+def init (n : Nat) (c : Cfg) (stats : Bool) : Fanout :=
+  { shards := List.replicate n { cfg := { c with limD := c.limD * n }, statistics := stats } }
+
 /-- `index = hash(key) % shards` -/
 def route (f : Fanout) (E : Externals) (k : PyVal) : Nat :=
   match f.shards.head? with
